@@ -799,16 +799,22 @@ func assign(n *node) {
 	}
 
 	if n.kind == defineStmt {
-		// Handle a multiple var declararation / assign. It cannot be a swap.
+		// Handle a multiple var declararation / assign. A value may be a variable
+		// which the statement redeclares: evaluate all values first.
 		n.exec = func(f *frame) bltn {
+			t := make([]reflect.Value, len(svalue))
 			for i, s := range svalue {
 				if n.child[i].ident == "_" {
 					continue
 				}
 				data := getFrame(f, level[i]).data
-				j := index[i]
-				data[j] = reflect.New(data[j].Type()).Elem()
-				data[j].Set(s(f))
+				t[i] = reflect.New(data[index[i]].Type()).Elem()
+				t[i].Set(s(f))
+			}
+			for i, v := range t {
+				if v.IsValid() {
+					getFrame(f, level[i]).data[index[i]] = v
+				}
 			}
 			return next
 		}
@@ -827,12 +833,22 @@ func assign(n *node) {
 			t[i] = reflect.New(types[i]).Elem()
 			t[i].Set(s(f))
 		}
+		// The keys of map entries are evaluated before any assignment.
+		var keys []reflect.Value
+		for i, j := range ivalue {
+			if j != nil && n.child[i].ident != "_" {
+				if keys == nil {
+					keys = make([]reflect.Value, len(ivalue))
+				}
+				keys[i] = copyValue(j(f))
+			}
+		}
 		for i, d := range dvalue {
 			if n.child[i].ident == "_" {
 				continue
 			}
-			if j := ivalue[i]; j != nil {
-				d(f).SetMapIndex(j(f), t[i]) // Assign a map entry
+			if ivalue[i] != nil {
+				d(f).SetMapIndex(keys[i], t[i]) // Assign a map entry
 			} else {
 				d(f).Set(t[i]) // Assign a var or array/slice entry
 			}
